@@ -386,11 +386,60 @@ func (g *Gen) Program() *Node {
 		g.pool = nil
 		n := g.Expr(t, g.K.MaxDepth)
 		if n.K == KOp || n.K == KIf {
+			if g.K.PIll > 0 && g.R.P(0.15) {
+				// the program next to a look-alike twin: same shape, some
+				// literals re-typed into values that print the same (3 / "3",
+				// (1 2) / ("1" "2")); the twin is usually ill-typed and must
+				// behave as what it says, not as its sibling
+				if tw, ok := lookalike(n, g.R); ok {
+					if g.R.P(0.5) {
+						return If(g.Leaf(TBool), n, tw)
+					}
+					return If(g.Leaf(TBool), tw, n)
+				}
+			}
 			return n
 		}
 	}
 	x := g.Expr(t, 1)
 	return If(Lit(VB(true)), x, g.Expr(t, 1))
+}
+
+// lookalike copies n with about half of its integer / integer-list literals
+// turned into strings / string lists of the same printed form, and vice versa.
+func lookalike(n *Node, r *Rng) (*Node, bool) {
+	c := n.Clone()
+	changed := false
+	var walk func(x *Node)
+	walk = func(x *Node) {
+		if x.K == KLit && x.Val != nil && r.P(0.5) {
+			switch x.Val.T {
+			case "i":
+				*x.Val = VS(strconv.FormatInt(x.Val.I, 10))
+				x.Raw = ""
+				changed = true
+			case "s":
+				if i, err := strconv.ParseInt(x.Val.S, 10, 64); err == nil && strconv.FormatInt(i, 10) == x.Val.S {
+					*x.Val = VI(i)
+					changed = true
+				}
+			case "il":
+				if len(x.Val.IL) > 0 {
+					var sl []string
+					for _, i := range x.Val.IL {
+						sl = append(sl, strconv.FormatInt(i, 10))
+					}
+					*x.Val = VSL(sl)
+					changed = true
+				}
+			}
+		}
+		for _, a := range x.Args {
+			walk(a)
+		}
+	}
+	walk(c)
+	return c, changed
 }
 
 func (g *Gen) litOf(t Ty) *Node {
